@@ -53,7 +53,7 @@ def run_tlc(module, constants, invariants=(), properties=(), spec="Spec", prefix
     with open(cfg, "w") as f:
         f.write(_cfg_text(constants, invariants, properties, spec, constraint, postcondition, view, extra_cfg))
     workers = workers or NCPU
-    cmd = ["java", "-XX:+UseParallelGC", "-Xmx8g"]
+    cmd = ["java", "-XX:+UseParallelGC", "-Xmx8g", "-Xss64m"]   # deep (recursive) operator evaluation needs stack
     if java_opts:
         cmd += java_opts
     cmd += ["-cp", JAR_CP, "tlc2.TLC", "-workers", str(workers), "-metadir", os.path.join(work, "meta"),
